@@ -133,3 +133,11 @@ Definition m_persist (frozen : bool) (ndir nfile npool cwd0 imp0 : nat) (ops : l
   let '(sf, res) := go s0 ops [] in
   (res, map (recv nat pbytes sf) (seq 0 npool),
    flat_map (fun d => map (fun f => (d, f, fs nat pbytes sf d f)) (seq 0 nfile)) (seq 0 ndir)).
+
+(* C14 *)
+From FQE Require Import Guards.
+Definition m_apply_verdict := apply_verdict.
+Definition m_evolve_inplace_verdict := evolve_inplace_verdict.
+Definition m_genu_verdict := genu_verdict.
+Definition m_rdm_tensor_verdict := rdm_tensor_verdict.
+Definition m_setdata_spec := setdata_spec.
